@@ -9,13 +9,24 @@ SPEC = {
                     "0, +-1, +-9, +-10, +-255, radix boundaries, min and max of all 15 integer and character types (about 0.86 M typed ST::format calls, complete in both tiers) and compared "
                     "with the reference rendering; generated calls mix 1-5 fields (sequential and &N), brace escapes, non-ASCII literals and 1-5 arguments of 32 types with widths and "
                     "precisions in every relation to the natural length, {c} on values inside and outside 0..10FFFF, through both ST::format and ST::format(assume_valid). The flag "
-                    "sweep is exhausted for the listed values; multi-field strings, other values and text arguments are sampled.",
+                    "sweep is exhausted for the listed values; multi-field strings, other values and text arguments are sampled. About one generated case in nine is an extended call: up to 12 "
+                    "arguments and 16 fields (&N up to 12, one argument rendered by several fields), typed 6/7/12-argument signatures (lvalues and rvalues), text with embedded U+0000 in every "
+                    "string / view / C-string form, ST buffers and ST::null, std::filesystem::path, user-defined format_type overloads (ST::format_string with every default alignment, char8_t "
+                    "overload, chained formatters, deprecated macros), {c} on ASCII char8_t, items without effect ('+', '#', class letters on text and {c}; precision on numbers), padding runs "
+                    "up to 16385 (every run B-1, B, B+1 for B = 32..16384 is enumerated in 8 layouts), literal runs up to 20000 bytes, text arguments up to 4097 characters, calls without fields "
+                    "or arguments; each of them through ST::format with no / each validation argument, the _stfmt literal operator (six real literals included), ST::format_latin_1 for ASCII "
+                    "renderings and the call with the arguments' real C++ types.",
             "level_note": "Trusts harness/ref/ref_format.h (interpreter written from the property statement, digits by std::to_chars) as the reading of the specification; width and "
                           "precision are counted in UTF-8 bytes as the code does; floats are out of scope (C13); specifiers with contradictory or repeated items ('<' with '>', '_x' with "
-                          "'0', two widths) are not generated, so 'last one wins' is not checked; {c} on char8_t (a code unit, copied verbatim) is not generated; widths and precisions <= 400.",
+                          "'0', two widths) are not generated, so 'last one wins' is not checked; {c} on char8_t (a code unit, copied verbatim) is generated only for values below 0x80, where the unit is the "
+                          "character; widths <= 400 in the base generator and <= natural + 16385 in extended calls; a user formatter's default alignment is read as 'side of the padding when the field names "
+                          "none'; ST::format(substitute_invalid, ..) is compared byte for byte only when the rendering is well-formed UTF-8 (the repaired text belongs to C02), ST::format_latin_1 only for "
+                          "all-ASCII renderings (the transcoding belongs to C17); std::complex and floating-point arguments are out of scope (C13).",
         },
         "assumptions": ["harness/ref/ref_format.h is a correct reading of the C11 statement (width and precision count UTF-8 bytes; a precision on an integer field has no effect)",
                         "the custom-formatter bridge used for argument lists of 2-5 entries (fg::LibArg -> ST::format_type of the real type) renders like passing the value directly; "
                         "single-argument calls and the whole sweep pass the value in its own C++ type",
-                        "ASan/UBSan report every out-of-bounds access to the exact-size format string and argument blocks"],
+                        "ASan/UBSan report every out-of-bounds access to the exact-size format string and argument blocks",
+                        "harness/ref/ref_format_ext.h (user-defined formatters: right-default text, two chained values, verbatim literal) is a correct reading of what those formatters ask the library to do",
+                        "std::filesystem::path keeps the bytes it was constructed from (POSIX); a case where u8string() differs from them is discarded"],
     }
